@@ -1,6 +1,7 @@
 import SFV.Proofs.GaussNM
 import SFV.Proofs.FockTensor
 import SFV.Proofs.Bosonic
+import SFV.Proofs.FockPrep
 import Mathlib.Tactic.IntervalCases
 
 /-!
@@ -105,6 +106,30 @@ theorem fock_trace_local2 {K : Type} [CommSemiring K] (D : Nat) (mat matc : Nat 
       applyAt2 D matc (2 * m1 + 1) (2 * m2 + 1) (applyAt2 D mat (2 * m1) (2 * m2) ρ) (diag2 idx m1 m2 v.1 v.2)) =
       ∑ v ∈ Finset.range D ×ˢ Finset.range D, ρ (diag2 idx m1 m2 v.1 v.2) :=
   trace_conj2 D mat matc m1 m2 h12 hiso ρ idx
+
+/-- **`prepare_multimode`, whole register**: axis `a` of the given ket ends up on mode `modes[a]` for
+every order of the listed modes (`axisMap modes a = modes[a]`) -/
+theorem fock_prepare_all_order {K : Type} (n : Nat) (modes : List Nat) (hnd : modes.Nodup)
+    (hlen : modes.length = n) (hlt : ∀ m ∈ modes, m < n) (σ : Tens K) (idx : Idx) :
+    prepareAll true n modes σ idx = σ (fun a => idx (axisMap modes a)) :=
+  prepareAll_pure n modes hnd hlen hlt σ idx
+
+/-- **`prepare_multimode`, sub-register**: the result is the partial trace of the old state on the other
+modes times the prepared state on the listed modes in the listed order — a product, for any register
+size, any number and order of prepared modes.  `P = indexPerm (spectators ++ modes)`; by
+`indexPerm_getD` and `modePermutation_back`, `P[2(n−k) + a] = 2·modes[a/2] + a%2`. -/
+theorem fock_prepare_product {K : Type} [Zero K] [Add K] [Mul K] (D n : Nat) (modes : List Nat) (hnd : modes.Nodup)
+    (hlt : ∀ m ∈ modes, m < n) (hne : modes ≠ List.range' (n - modes.length) modes.length)
+    (σ ρ : Tens K) (idx : Idx) :
+    prepareSome D n modes σ ρ idx =
+      partialTrace D n modes ρ (fun a => idx (axisMap (SFV.States.indexPerm (modePermutation n modes)) a)) *
+        σ (fun a => idx (axisMap (SFV.States.indexPerm (modePermutation n modes)) (2 * (n - modes.length) + a))) :=
+  prepareSome_entry D n modes hnd hlt hne σ ρ idx
+
+theorem fock_prepare_positions (n : Nat) (modes : List Nat) (hnd : modes.Nodup) (hlt : ∀ m ∈ modes, m < n)
+    (a : Nat) (ha : a < modes.length) :
+    (modePermutation n modes).getD (n - modes.length + a) 0 = modes.getD a 0 :=
+  modePermutation_back n modes hnd hlt a ha
 
 /-- **measurement reset**: after `project_reset` every entry with a measured mode outside `|0⟩` vanishes -/
 theorem fock_project_reset_vacuum {K : Type} [Zero K] (modes xs : List Nat) (ψ : Tens K) (idx : Idx)
